@@ -53,30 +53,22 @@ def arm_always_raises(fi, ifnode, label, exc_names):
 
 
 def ring_table(fi):
-    """The open-ring table of read_cgsmiles: a local initialised to an empty dict that is
-    written by `V[k] = ...` and `del V[k]` inside the token loop."""
-    cands = {}
+    """(name, write sites) of the open-ring table of read_cgsmiles: the empty-dict local whose non-emptiness raises
+    SyntaxError before the return (identified by rules/ring.py, also when the open/close code lives in a helper)."""
+    from .ring import RingModel
+    name = RingModel(fi.module.repo).table
+    sites = {"del": [], "set": []}
     for n in fi.cfg.nodes:
         st = n.ast
         if n.kind == "stmt" and isinstance(st, ast.Delete):
             for t in st.targets:
-                if isinstance(t, ast.Subscript) and isinstance(t.value, ast.Name):
-                    cands.setdefault(t.value.id, {"del": [], "set": []})["del"].append(n)
+                if isinstance(t, ast.Subscript) and isinstance(t.value, ast.Name) and t.value.id == name:
+                    sites["del"].append(n)
         if n.kind == "stmt" and isinstance(st, ast.Assign):
             for t in st.targets:
-                if isinstance(t, ast.Subscript) and isinstance(t.value, ast.Name):
-                    cands.setdefault(t.value.id, {"del": [], "set": []})["set"].append(n)
-    out = []
-    for name, d in cands.items():
-        if d["del"] and d["set"]:
-            inits = [x for x in fi.flow.defs if x.var == name and x.kind == "assign" and
-                     (isinstance(x.value, ast.Dict) and not x.value.keys or
-                      (isinstance(x.value, ast.Call) and ast.unparse(x.value) == "dict()"))]
-            if inits:
-                out.append((name, d))
-    if len(out) != 1:
-        raise AnalysisError("cannot identify the open-ring table in read_cgsmiles (candidates: %s)" % [o[0] for o in out], fi.where())
-    return out[0]
+                if isinstance(t, ast.Subscript) and isinstance(t.value, ast.Name) and t.value.id == name:
+                    sites["set"].append(n)
+    return name, sites
 
 
 def ring_handlers(fi, name):
